@@ -436,7 +436,8 @@ func runWire(c *WireCase) (interface{}, error) {
 		}
 	}
 	// version gate: the authority block re-signed (by another root) with an unsupported version must be rejected
-	vs := []*uint64{nil}
+	// (a block WITHOUT a version field declares nothing: whether it is refused is not part of the property)
+	vs := []*uint64{}
 	for _, v := range []uint64{0, 1, 2, 4, math.MaxUint32} {
 		vv := v
 		vs = append(vs, &vv)
